@@ -9,7 +9,7 @@ def registry():
     reg = base_registry()
     reg.add(ClassContract(A + 'BytesIO_EOF',
                           fields={'_buffer': 'bytes', '_index': 'nat', '_bookmark': 'nat|none'},
-                          valid=['self._index <= len(self._buffer)']))
+                          valid=['0 <= self._index', 'self._index <= len(self._buffer)']))
     reg.add(Contract(A + 'BytesIO_EOF.read', params={'length': 'nat'},
                      raises={'ValueError': ('iff', 'self._index + length > len(self._buffer)')},
                      ensures={'value': 'result == old(self._buffer)[old(self._index):old(self._index) + length]',
